@@ -57,10 +57,13 @@ class C06:
     def strategy(self, tier):
         lat = st.lists(st.sampled_from(simbus.LATENCY_GRID[1:]), min_size=1, max_size=3)
         return st.builds(
-            lambda sh, resid, cls, a, lo, lr, eps, sas, tx: dict(sh, resid=resid, cls=cls, a=a, lat={"O": lo, "R": lr}, eps=eps, sas=sas, tx_time=tx),
+            lambda sh, resid, cls, a, lo, lr, eps, sas, tx, tm: dict(sh, resid=resid, cls=cls, a=a, lat={"O": lo, "R": lr}, eps=eps, sas=sas,
+                                                                   tx_time=tx, app_timer=tm),
             st.sampled_from(shapes()), st.integers(1, 60), st.sampled_from(["pos", "ff", "zero", "arith"]),
             st.integers(0, 255), lat, lat, st.lists(st.sampled_from([0.0, 1e-5, 1e-3]), min_size=1, max_size=2),
-            st.sampled_from([[0x21, 0x42], [0x21, 0x42], [0x00, 0x42], [0x21, 0x00], [0x01, 0xFD], [0xFD, 0x80], [0xF8, 0x7F]]), st.sampled_from([0.0, 0.0, 0.0001, 0.0005]))
+            st.sampled_from([[0x21, 0x42], [0x21, 0x42], [0x00, 0x42], [0x21, 0x00], [0x01, 0xFD], [0xFD, 0x80], [0xF8, 0x7F]]), st.sampled_from([0.0, 0.0, 0.0001, 0.0005]),
+            # a cyclic application timer (e.g. a DM1 cycle) on either ECU: [period, on which stack]
+            st.sampled_from([None, None, [0.4, "O"], [1.0, "R"], [2.0, "O"], [2.0, "R"], [0.7, "both"]]))
 
     def examples(self, tier):
         return 60 if tier == "quick" else 20000
@@ -71,7 +74,8 @@ class C06:
             seg = 60 if sh["dll"] == "j1939-22" else 7
             out.append(dict(sh, resid=[seg, 1, seg - 1, 3][i % 4], cls=["pos", "ff", "arith", "zero"][(i // 4) % 4], a=i,
                             lat=LAT_DEFAULT, eps=[0.0, 1e-5],
-                            sas=[[0x21, 0x42], [0x00, 0x42], [0x21, 0x00], [0xFD, 0x01]][(i // 3) % 4]))
+                            sas=[[0x21, 0x42], [0x00, 0x42], [0x21, 0x00], [0xFD, 0x01]][(i // 3) % 4],
+                            app_timer=[None, None, [2.0, "O"], None, [2.0, "R"], [0.7, "both"]][i % 6]))
         return out
 
     def exhaustive(self, tier):
@@ -106,6 +110,11 @@ class C06:
             r = w.stack("R", dll=p["dll"], max_cmdt=p["win_r"], tx_time=p.get("tx_time", 0.0))
             o.add_ca("o", 0x100, SA_O)
             r.add_ca("r", 0x200, SA_R)
+            if p.get("app_timer"):
+                per, where = p["app_timer"]
+                for nm, stk in (("O", o), ("R", r)):
+                    if where in (nm, "both"):
+                        stk.ecu.add_timer(per, lambda cookie: True)
             o.listen_ca("o")
             r.listen_ca("r")
             da = 255 if p["mode"] == "bam" else SA_R
